@@ -75,9 +75,9 @@ class Element(Component, Matter):
             # Extract information about isos
             element, variant, iso1, ion1, iso2, ion3 = m.groups()
             if element=='D':
-                element, variant, iso1, ion1, iso2, ion3 = 'H', True, 2, ion1, 2, None
+                element, variant, iso1, ion1, iso2, ion3 = 'H', True, 2, ion1 or ion3, 2, None   # D{+} is H{2+}: a charge alone is kept
             elif element=='T':
-                element, variant, iso1, ion1, iso2, ion3 = 'H', True, 3, ion1, 3, None
+                element, variant, iso1, ion1, iso2, ion3 = 'H', True, 3, ion1 or ion3, 3, None
             self.element = element
             if iso1 and ion1:
                 if ion1=="-": ion1="-1"
